@@ -608,6 +608,14 @@ func (r *FnRun) addGoalRaw(g *Goal) {
 	g.Fn = r.FnName
 	g.Run = r
 	r.Goals = append(r.Goals, g)
+	root := r
+	for root.parent != nil {
+		root = root.parent
+	}
+	root.siteCnt["goals"]++
+	if root.siteCnt["goals"] == 6001 {
+		panic(unsupported("more than 6000 verification conditions for one function (path explosion)"))
+	}
 }
 
 func (r *FnRun) addGoal(st *State, oblig, detail string, t Term, props []string) {
